@@ -131,7 +131,7 @@ def run_property(spec, tier, seed):
         impl = core.run_harness(binary, st.mode, [c.rust for c in cases], "%s_%s" % (pid, st.name),
                                 as_limit_gb=st.as_limit_gb, shards=st.rust_shards)
         model = None
-        if model_ok:
+        if model_ok and st.runner:
             try:
                 model = core.run_model_cases(st.imports, st.runner, [c.coq for c in cases],
                                              "%s_%s" % (pid, st.name), shard=st.shard, scope=st.scope)
